@@ -168,3 +168,13 @@ package http
 //@ func (*DrandHandler).Health(h, w, r)
 //@   props C14
 //@   flags lockcheck nopanic=C14 recovered
+
+// ---- C16: the HTTP server dates a round through the one schedule function -------------------------------------------------
+// dateOfRound decides "this round does not exist yet" and the cache lifetime of an answer: it has to be the guarded
+// TimeOfRound of the chain's own period and genesis (its own arithmetic on durations would wrap for huge round numbers).
+//@ func dateOfRound(round, info) (t)
+//@   props C16
+//@   modifies nothing
+//@   requires [wf] info != nil && common.validPeriod(info.Period) && common.validGenesis(info.GenesisTime)
+//@   call TimeOfRound#0: assert [C16:the-http-server-dates-a-round-with-the-schedule-function] arg0 == info.Period && arg1 == info.GenesisTime && arg2 == round
+//@   call Unix#0: assert [C16:the-date-of-a-round-is-the-scheduled-unix-time-or-the-error-value] arg1 == 0 && (round == 0 || arg0 == common.errVal() || arg0 == common.timeOf(info.Period, info.GenesisTime, round))
